@@ -66,14 +66,14 @@ impl SLIT {
     /// Set the relative locality distance between two domains
     /// (10-254, 10 is the value from one node to itself).
     pub fn set_distance(&mut self, domain_a: usize, domain_b: usize, locality_value: u8) {
-        let old_values = [
-            self.entries[domain_a + self.localities as usize * domain_b],
-            self.entries[domain_b + self.localities as usize * domain_a],
-        ];
-
+        // Read each old value right before overwriting it: on the diagonal
+        // both indices name the same cell, and the second read must see
+        // the value just written for the checksum delta to be exact.
+        let old_ab = self.entries[domain_a + self.localities as usize * domain_b];
         self.entries[domain_a + self.localities as usize * domain_b] = locality_value;
+        let old_ba = self.entries[domain_b + self.localities as usize * domain_a];
         self.entries[domain_b + self.localities as usize * domain_a] = locality_value;
-        self.update_header(&old_values, locality_value);
+        self.update_header(&[old_ab, old_ba], locality_value);
     }
 }
 
